@@ -495,7 +495,9 @@ fn check_socket(count: &u32, case: &mut Case) -> Result<(), Fail> {
                 _ => strat.new_tree(&mut runner).map(|t| match t.current() { Dg::ServiceResponse(v) => v.first().map(|x| x.1.clone()).unwrap_or(ARData::Empty { code: 28 }), _ => ARData::Empty { code: 28 } }).unwrap_or(ARData::Empty { code: 28 }),
             };
             let mut p = APacket { id: 0, flags: 0x8400, ..Default::default() };
-            p.answers.push(ARecord { name: bait_name.clone(), class: 1, cache_flush: k % 2 == 0, ttl: 5, rdata: rd });
+            // now and then under a class the library has no name for (an entry a lenient parser might skip)
+            let class = if k % 5 == 4 { 0x42 } else { 1 };
+            p.answers.push(ARecord { name: bait_name.clone(), class, cache_flush: k % 2 == 0, ttl: 5, rdata: rd });
             if k % 3 == 0 {
                 p.additionals.push(ARecord { name: bait_name.clone(), class: 1, cache_flush: false, ttl: 5, rdata: ARData::Empty { code: 1 } });
             }
